@@ -95,7 +95,7 @@ def _one(ctx, rng, knobs_fn, on_result, sched_steps, ninputs, op_weights, nprog,
         ctx.sample({"proc": sstr(proc, 1500), "schedule": [s["op"] for s in sess.steps], "inputs": res.ninputs, "exact_inputs": res.exact_inputs, "status": res.status, "c_tail": (res.c_text or "")[-800:]}, limit=2)
 
 
-def replay_c(case, want_status):
+def replay_c(case, want_status, only_exact=False):
     """rebuild the procedure of a case and run the C harness on the recorded inputs"""
     import pathlib, tempfile, shutil
 
@@ -108,7 +108,7 @@ def replay_c(case, want_status):
             if r.status != "accepted":
                 return {"reproduced": False, "detail": f"schedule step {st['op']} rejected now: {r.exc!r}"}
         specs = [InputSpec.from_json(j) for j in case.get("inputs") or []] or None
-        res = check_c(sess.cur, random.Random(0), scratch / "cb", ninputs=6, specs=specs)
+        res = check_c(sess.cur, random.Random(0), scratch / "cb", ninputs=6, specs=specs, only_exact=only_exact)
         rep = res.status in want_status
         return {
             "reproduced": rep,
